@@ -46,7 +46,13 @@ struct Case {
 }
 
 fn gen_case(r: &mut Rng, port: u16) -> (Case, String) {
-    let pq = match r.below(9) {
+    let pq = match r.below(15) {
+        9 => "/tr/announce/".to_string(),
+        10 => "/announce/?k=v".to_string(),
+        11 => "/announce?compact".to_string(),
+        12 => "/announce?a=1&nopeerid&b=2".to_string(),
+        13 => "/announce?flag&".to_string(),
+        14 => "/".to_string(),
         0 => "".to_string(),
         1 => "/announce".to_string(),
         2 => "/a/b/announce.php".to_string(),
@@ -135,7 +141,8 @@ pub fn run(ctx: &Ctx) -> Report {
                 // existing query parameters must survive with their values
                 for (k, v, _) in parse_query(want_query) {
                     let got = find(&k);
-                    if got.len() != 1 || got[0].1 != v {
+                    // (the client may add parameters of its own, even one with the same key)
+                    if !got.iter().any(|g| g.1 == v) {
                         bad = Some(("C18:announce-query-parameter-lost".into(), format!("announce URL parameter {:?} arrived as {:?}", k, got.iter().map(|g| g.2.clone()).collect::<Vec<_>>())));
                         break;
                     }
